@@ -226,7 +226,11 @@ def create_configured_connection(database: str = ":memory:") -> duckdb.DuckDBPyC
     conn = duckdb.connect(
         database, config={"storage_compatibility_version": STORAGE_COMPATIBILITY_VERSION}
     )
-    configure_duckdb_connection(conn)
+    try:
+        configure_duckdb_connection(conn)
+    except BaseException:
+        conn.close()
+        raise
     return conn
 
 
@@ -241,14 +245,16 @@ def configured_connection(database: str = ":memory:") -> Iterator[duckdb.DuckDBP
     if database == ":memory:" and not _use_in_memory_db():
         database = str(session_dir / "session.duckdb")
 
-    conn = create_configured_connection(database)
-    conn.execute(f"SET temp_directory = '{session_dir}'")
-    _verif.event("session_open", dir=str(session_dir), database=database)
+    conn = None
     try:
+        conn = create_configured_connection(database)
+        conn.execute(f"SET temp_directory = '{session_dir}'")
+        _verif.event("session_open", dir=str(session_dir), database=database)
         yield conn
     finally:
         try:
-            conn.close()
+            if conn is not None:
+                conn.close()
             _verif.event("session_conn_closed")
         finally:
             shutil.rmtree(session_dir, ignore_errors=True)
